@@ -104,6 +104,12 @@ def has_bare_zone(d):
     return w(d["body"])
 
 
+def has_fence_like_string(d):
+    """a STRING value that begins with three backticks: in the Markdown rendering it cannot be told from the opening of a literal
+    zone (which is rendered as a fenced block on the item's line) - the leaf scan of that rendering is undefined"""
+    return '"```' in json.dumps(d, ensure_ascii=False).replace('["zone", "```', "").replace('"```"]', "") or '["str", "```' in json.dumps(d, ensure_ascii=False)
+
+
 def multiset_sub(a, b):
     """a ⊆ b as multisets; returns the list of elements of a not covered by b."""
     bb = list(b)
@@ -141,8 +147,11 @@ def check_doc(case, via_cli=False) -> Res:
     cs0 = dict(label=label, doc=d)
     per_mode = {}
     md_keys = {}
+    md_undefined = '["str", "```' in json.dumps(d, ensure_ascii=False)
     for mode in MODES:
         for fmt in FORMATS:
+            if fmt == "markdown" and md_undefined:
+                continue      # see has_fence_like_string: the Markdown leaf scan is undefined for this document
             cs = dict(cs0, mode=mode, format=fmt, cli=via_cli)
             if via_cli:
                 f = sl.workfile("e14")
@@ -282,4 +291,13 @@ def trig_cli(case, v):
     return bool(case.get("cli"))
 
 
-TRIGGERS = {"has_section_nonoctave": trig_section, "has_duplicates_dictformat": trig_duplicates, "has_bare_zone": trig_bare_zone, "cli": trig_cli}
+def trig_cli_cr(case, v):
+    return bool(case.get("cli")) and "\\r" in json.dumps(case.get("doc"))
+
+
+def trig_yaml_linebreak(case, v):
+    j = json.dumps(case.get("doc"))
+    return case.get("format") == "yaml" and any(x in j for x in ("\\u0085", "\\u2028", "\\u2029"))
+
+
+TRIGGERS = {"yaml_linebreak_char": trig_yaml_linebreak, "cli_cr_value": trig_cli_cr, "has_section_nonoctave": trig_section, "has_duplicates_dictformat": trig_duplicates, "has_bare_zone": trig_bare_zone, "cli": trig_cli}
